@@ -538,4 +538,159 @@ theorem framePositions_of_segFrames (P : Nat → V3) (rowCos colCos : V3) (nonem
   intro f hf
   exact keptPlanes_bound nonempty om f.plane ((hmem f).mp hf).2.1
 
+/-! ## planes of a volume -/
+
+theorem volume_dist {g : Geom} (hg : Admissible g) (k : Nat) :
+    distOf (planePosition g) g.d2 g.d1 k = dot (normal g.d2 g.d1) g.p + ((handInt g * (k : Int) : Int) : Rat) * g.s0 := by
+  unfold distOf
+  have hn : dot (normal g.d2 g.d1) (normal g.d2 g.d1) = 1 := (stackOK_store hg []).unitN
+  rw [planePosition_line hg, dot_linePos _ _ _ _ hn]
+
+/-- along the normal the planes of a volume come in index order when it is right-handed, in reverse order otherwise -/
+theorem volume_dist_lt {g : Geom} (hg : Admissible g) (a b : Nat) :
+    distOf (planePosition g) g.d2 g.d1 a < distOf (planePosition g) g.d2 g.d1 b ↔ handInt g * (a : Int) < handInt g * (b : Int) := by
+  rw [volume_dist hg, volume_dist hg]
+  have hs := hg.s0
+  constructor
+  · intro h
+    have : ((handInt g * (a : Int) : Int) : Rat) < ((handInt g * (b : Int) : Int) : Rat) := by
+      by_contra hc
+      have := mul_le_mul_of_nonneg_right (not_lt.mp hc) (le_of_lt hs)
+      linarith
+    exact_mod_cast this
+  · intro h
+    have : ((handInt g * (a : Int) : Int) : Rat) < ((handInt g * (b : Int) : Int) : Rat) := by exact_mod_cast h
+    have := mul_lt_mul_of_pos_right this hs
+    linarith
+
+theorem volume_dist_inj {g : Geom} (hg : Admissible g) (a b : Nat)
+    (h : distOf (planePosition g) g.d2 g.d1 a = distOf (planePosition g) g.d2 g.d1 b) : a = b := by
+  have h1 := (volume_dist_lt hg a b).not.mp (by rw [h]; exact lt_irrefl _)
+  have h2 := (volume_dist_lt hg b a).not.mp (by rw [h]; exact lt_irrefl _)
+  have hh : handInt g = 1 ∨ handInt g = -1 := by unfold handInt; split <;> simp
+  rcases hh with hh | hh <;> rw [hh] at h1 h2 <;> omega
+
+theorem planePosition_inj {g : Geom} (hg : Admissible g) (a b : Nat) (h : planePosition g a = planePosition g b) : a = b :=
+  volume_dist_inj hg a b (by unfold distOf; rw [h])
+
+/-- what the read side sees of the frames stored for a volume is the stack of the read-side theorems
+(`storeStack` on the planes of the frames, in frame order) with the frames' segment numbers -/
+theorem framesStack_volume {g : Geom} (hg : Admissible g) (nonempty : List Bool) (om : Bool) (segs : List (Option Nat))
+    (present : Option Nat → Nat → Bool) (frames : List Frame)
+    (hok : segFrames ((List.range nonempty.length).map (planePosition g)) g.d2 g.d1 nonempty om segs present = .ok frames) :
+    framesStack g.d2 g.d1 g.s1 g.s2 (some g.s0) ((List.range nonempty.length).map (planePosition g)) frames
+      = .ok (withChan (storeStack g (frames.map (fun f => f.plane))) (frames.filterMap (fun f => f.seg))) := by
+  unfold framesStack
+  rw [framePositions_of_segFrames (planePosition g) g.d2 g.d1 nonempty
+    (fun a _ b _ h => volume_dist_inj hg a b h) om segs present frames hok]
+  simp only [withChan, storeStack, List.map_map]
+  rfl
+
+theorem filterMap_seg_of_some (frames : List Frame) (h : ∀ f ∈ frames, f.seg.isSome = true) :
+    frames.filterMap (fun f => f.seg) = frames.map (fun f => f.seg.getD 0) := by
+  induction frames with
+  | nil => rfl
+  | cons a t ih =>
+    have ha := h a List.mem_cons_self
+    rw [List.filterMap_cons, List.map_cons, ih (fun f hf => h f (List.mem_cons_of_mem _ hf))]
+    cases hs : a.seg with
+    | none => rw [hs] at ha; cases ha
+    | some v => rfl
+
+theorem filterMap_seg_of_none (frames : List Frame) (h : ∀ f ∈ frames, f.seg = none) :
+    frames.filterMap (fun f => f.seg) = [] := by
+  induction frames with
+  | nil => rfl
+  | cons a t ih =>
+    rw [List.filterMap_cons, h a List.mem_cons_self]
+    exact ih (fun f hf => h f (List.mem_cons_of_mem _ hf))
+
+/-- no two stored frames have the same (segment, plane) -/
+theorem frames_distinct (P : Nat → V3) (rowCos colCos : V3) (nonempty : List Bool)
+    (hinj : ∀ a < nonempty.length, ∀ b < nonempty.length, distOf P rowCos colCos a = distOf P rowCos colCos b → a = b)
+    (om : Bool) (segs : List (Option Nat)) (hsegs : segs.Nodup) (present : Option Nat → Nat → Bool) (frames : List Frame)
+    (hok : segFrames ((List.range nonempty.length).map P) rowCos colCos nonempty om segs present = .ok frames) :
+    frames.Pairwise (fun a b => a.seg ≠ b.seg ∨ a.plane ≠ b.plane) := by
+  obtain ⟨psi, hperm, _, hok'⟩ := segFrames_structure P rowCos colCos nonempty hinj om segs present
+  rw [hok'] at hok
+  simp only [Except.ok.injEq] at hok
+  subst hok
+  rw [List.pairwise_flatMap]
+  constructor
+  · intro s _
+    have hnd : ((planeFrames s (omitEff nonempty om) present 1 psi).map (fun f => f.plane)).Nodup := by
+      rw [planeFrames_planes]
+      exact (hperm.nodup_iff.mpr (keptPlanes_nodup nonempty om)).sublist List.filter_sublist
+    rw [List.Nodup, List.pairwise_map] at hnd
+    exact hnd.imp (fun h => Or.inr h)
+  · apply (hsegs : segs.Pairwise (· ≠ ·)).imp
+    intro s s' hss x hx y hy
+    left
+    rw [((mem_planeFrames s _ present 1 psi x).mp hx).1, ((mem_planeFrames s' _ present 1 psi y).mp hy).1]
+    exact hss
+
+/-- the frames the constructor stores for a volume are distinguishable on the read side (`framesUnique`): by position
+for a label map, by (position, segment) otherwise -/
+theorem framesUnique_volume {g : Geom} (hg : Admissible g) (nonempty : List Bool) (om : Bool) (labelmap : Bool)
+    (described : List Nat) (hd : described.Nodup) (present : Option Nat → Nat → Bool) (frames : List Frame)
+    (hok : segFrames ((List.range nonempty.length).map (planePosition g)) g.d2 g.d1 nonempty om
+      (segmentsIterable labelmap described) present = .ok frames) :
+    framesUnique .seg (withChan (storeStack g (frames.map (fun f => f.plane))) (frames.filterMap (fun f => f.seg))) = true := by
+  have hinj : ∀ a < nonempty.length, ∀ b < nonempty.length,
+      distOf (planePosition g) g.d2 g.d1 a = distOf (planePosition g) g.d2 g.d1 b → a = b := fun a _ b _ h => volume_dist_inj hg a b h
+  have hsegs : (segmentsIterable labelmap described).Nodup := by
+    unfold segmentsIterable
+    split
+    · simp
+    · exact hd.map (fun a b h => by simpa using h)
+  have hdist := frames_distinct (planePosition g) g.d2 g.d1 nonempty hinj om _ hsegs present frames hok
+  obtain ⟨frames', hok', hmem⟩ := mem_segFrames (planePosition g) g.d2 g.d1 nonempty hinj om (segmentsIterable labelmap described) present
+  rw [hok'] at hok
+  simp only [Except.ok.injEq] at hok
+  subst hok
+  cases labelmap with
+  | true =>
+    have hnone : ∀ f ∈ frames', f.seg = none := by
+      intro f hf
+      have := ((hmem f).mp hf).1
+      simpa [segmentsIterable] using this
+    rw [filterMap_seg_of_none _ hnone]
+    apply framesUnique_of_nodup .seg _ rfl
+    show ((frames'.map (fun f => f.plane)).map (planePosition g)).Nodup
+    rw [List.map_map, List.Nodup, List.pairwise_map]
+    apply hdist.imp_of_mem
+    intro a b ha hb hab heq
+    rcases hab with hab | hab
+    · exact hab ((hnone a ha).trans (hnone b hb).symm)
+    · exact hab (planePosition_inj hg _ _ heq)
+  | false =>
+    have hsome : ∀ f ∈ frames', f.seg.isSome = true := by
+      intro f hf
+      have := ((hmem f).mp hf).1
+      simp only [segmentsIterable, Bool.false_eq_true, if_false, List.mem_map] at this
+      obtain ⟨v, _, hv⟩ := this
+      rw [← hv]; rfl
+    rw [filterMap_seg_of_some _ hsome]
+    unfold framesUnique withChan storeStack
+    simp only [List.length_map, beq_self_eq_true, if_true]
+    rw [allDistinct_iff_nodup, List.map_map, List.zip_map', List.Nodup, List.pairwise_map]
+    apply hdist.imp_of_mem
+    intro a b ha hb hab heq
+    simp only [Function.comp, Prod.mk.injEq] at heq
+    rcases hab with hab | hab
+    · apply hab
+      have h1 := hsome a ha
+      have h2 := hsome b hb
+      cases hsa : a.seg with
+      | none => rw [hsa] at h1; cases h1
+      | some va =>
+        cases hsb : b.seg with
+        | none => rw [hsb] at h2; cases h2
+        | some vb =>
+          have := heq.2
+          rw [hsa, hsb] at this
+          simp only [Option.getD_some] at this
+          rw [this]
+    · exact hab (planePosition_inj hg _ _ heq.1)
+
 end HdVerif.SegFramesLemmas
